@@ -187,6 +187,8 @@ pub struct RunResult {
 /// Fresh simulator state on a thread spawned inside a run.
 pub fn install_thread_state() {
     reset_thread_state();
+    // threads spawned inside a run get a fixed entropy stream of their own
+    midnight_proofs::verif_hooks::seed_entropy(Some(0x7ead));
 }
 
 fn reset_thread_state() {
@@ -195,9 +197,27 @@ fn reset_thread_state() {
     let _ = midnight_proofs::verif_hooks::clear();
 }
 
+/// Runs `f` on a thread of its own with fresh simulator state and a fixed
+/// entropy stream: shared fixtures (proof pools, aggregation fixtures) are
+/// built this way, so that they do not depend on which scenario needs them
+/// first, and building them does not disturb the calling scenario's streams.
+pub fn on_fresh_thread<R: Send + 'static>(f: impl FnOnce() -> R + Send + 'static) -> R {
+    std::thread::Builder::new()
+        .stack_size(512 << 20)
+        .spawn(move || {
+            install_thread_state();
+            f()
+        })
+        .expect("spawn")
+        .join()
+        .expect("fixture thread panicked")
+}
+
 /// Executes one scenario on the current thread with fresh simulator state.
 pub fn execute_scn(check: &dyn Check, scn: &Value) -> RunResult {
     reset_thread_state();
+    // entropy seam (hook H5): what the prover draws from the operating system is a function of the scenario
+    midnight_proofs::verif_hooks::seed_entropy(Some(prng::digest(scn.to_string().as_bytes())));
     let mut st = Stats::default();
     let verdict = match catch(|| check.execute(scn, &mut st)) {
         Ok(v) => v,
@@ -227,6 +247,9 @@ fn run_digest(v: &Verdict, st: &Stats) -> u64 {
         Verdict::Harness(m) => format!("harness:{m}"),
     };
     let s = format!("{vs}|{:?}|{:?}|{:?}|{}", st.counters, st.nontrivial, st.schedules, st.events);
+    if std::env::var("ZKSIM_DUMP_RUN").is_ok() {
+        eprintln!("RUN-STATE {s}");
+    }
     prng::digest(s.as_bytes())
 }
 
